@@ -356,6 +356,16 @@ func runCheck(root string, args []string) int {
 			vioLines = append(vioLines, line)
 		}
 	}
+	// thorough tier: bounded stand-in for the whole-state ledger statements (C01, C02, C03)
+	if ledFacts := map[string][]string{
+		"C01": {"custody_equals_staked_plus_pending"},
+		"C02": {"custody_equals_staked_plus_pending"},
+		"C03": {"delegator_shares_sum_to_validator_total", "validator_shares_sum_to_asset_total", "no_negative_shares", "shares_reset_when_nothing_staked"},
+	}[prop]; ledFacts != nil && tier == "thorough" {
+		runBoundedSuite(root, vd, prop, seed, "ledger", "bounded/zz_bounded_ledger_test.go", "TestBoundedLedger", ledFacts,
+			"12 seeded random histories x 16 steps, 3 users x 3 validators x 2 assets, amounts 1 .. 1e30, slashes 0.01% .. 100%, time jumps past the unbonding period, CompleteUnbondings; independent enumeration of delegations, validators, assets, unbonding queue and the module balance after every step",
+			isKnown, &knownHit, &bounded, &violations, &vioLines)
+	}
 	// thorough tier: bounded validation of the composed fixed-point behaviour of positions on the real code (C04, C05, C20)
 	if posFacts := map[string][]string{
 		"C04": {"actor_moves_the_amount", "other_positions_unchanged", "values_sum_below_staked_total"},
@@ -466,6 +476,54 @@ func runCheck(root string, args []string) int {
 	return 0
 }
 
+// runBoundedSuite runs one bounded suite for a property, keeps the facts that belong to the property, and reports unknown failed facts.
+func runBoundedSuite(root, vd, prop string, seed int, suite, rel, testName string, facts []string, bound string,
+	isKnown func(string) *KnownFinding, knownHit *[]string, bounded *[]map[string]interface{}, violations *int, vioLines *[]string) {
+	res := runBoundedTest(root, vd, rel, "x/alliance/keeper/tests", testName, seed)
+	var unknownFacts, knownFacts, mine []string
+	for _, fct := range res.failed {
+		base := fct
+		if i := strings.Index(fct, "@"); i >= 0 {
+			base = fct[:i]
+		}
+		relevant := false
+		for _, pf := range facts {
+			if pf == base {
+				relevant = true
+			}
+		}
+		if !relevant {
+			continue
+		}
+		mine = append(mine, fct)
+		name := "bounded:" + suite + ":" + fct
+		if kf := isKnown(name); kf != nil {
+			knownFacts = append(knownFacts, fct)
+			*knownHit = append(*knownHit, name)
+			fmt.Printf("KNOWN-FINDING: property=%s %s: %s\n", prop, name, kf.What)
+		} else {
+			unknownFacts = append(unknownFacts, fct)
+		}
+	}
+	*bounded = append(*bounded, map[string]interface{}{
+		"name": "bounded:" + suite + " (" + rel + " on the real code)", "bound": bound + "; facts of this property: " + strings.Join(facts, ", "),
+		"status": res.status, "seconds": res.secs, "failed_facts": mine, "known_failed_facts": knownFacts,
+	})
+	if len(unknownFacts) > 0 || (res.status != "passed" && res.status != "failed") {
+		*violations++
+		dir := filepath.Join(vd, "replays", prop)
+		os.MkdirAll(dir, 0o755)
+		path := filepath.Join(dir, "bounded_"+suite+".json")
+		jsonOut(path, map[string]interface{}{"property": prop, "obligation": "bounded:" + suite, "replayed": len(unknownFacts) > 0,
+			"reason": "the real code violates a fact of this property on a concrete history; the inputs are in the output", "failed_facts": unknownFacts, "status": res.status, "output": res.out})
+		line := fmt.Sprintf("VIOLATION property=%s replay=%s obligation=bounded:%s (%s)", prop, path, suite, strings.Join(unknownFacts, ","))
+		if len(unknownFacts) == 0 {
+			line = fmt.Sprintf("VIOLATION property=%s replay=%s obligation=bounded:%s (could not be run on the current source: %s) no-failing-input-found", prop, path, suite, res.status)
+		}
+		*vioLines = append(*vioLines, line)
+	}
+}
+
 // runBoundedTest runs a bounded validation test of /verif against the working tree through `go test -overlay`;
 // failed facts are the `BOUNDED-FACT-FAILED <fact> ::` lines it prints.
 func runBoundedTest(root, vd, rel, pkgdir, testName string, seed int) keyLayerResult {
@@ -484,7 +542,7 @@ func runBoundedTest(root, vd, rel, pkgdir, testName string, seed int) keyLayerRe
 	defer os.Remove(ov.Name())
 	fmt.Fprintf(ov, "{\"Replace\": {%q: %q}}\n", filepath.Join(root, pkgdir, filepath.Base(rel)), src)
 	ov.Close()
-	cmd := exec.Command("go", "test", "-overlay", ov.Name(), "-vet=off", "-count=1", "-timeout", "900s", "-run", "^"+testName+"$", "./"+pkgdir+"/")
+	cmd := exec.Command("go", "test", "-v", "-overlay", ov.Name(), "-vet=off", "-count=1", "-timeout", "900s", "-run", "^"+testName+"$", "./"+pkgdir+"/")
 	cmd.Dir = root
 	cmd.Env = append(os.Environ(), "GOFLAGS=-mod=mod", "GOPROXY=off", "GOSUMDB=off", "GOTOOLCHAIN=local", fmt.Sprintf("VERIF_SEED=%d", seed))
 	b, err := cmd.CombinedOutput()
